@@ -9,7 +9,8 @@ LEVEL = ("Static error-discipline analysis of the worker closure, the controller
          "explicit Err arm whose payload reaches the closure's result) - never unwrapped, discarded or swallowed; wait_timeout/abort map "
          "every error arm to an Err value; the same discipline holds on the whole draw path below Chain::draw / set_position (R5, shared with C05-R1), so an unrecoverable density error raised anywhere reaches the worker's `?`. Decides the structural necessary condition; does not execute fault injections, and says "
          "nothing about panics inside user densities or rayon."
-         " Added: a rejected starting point leaves the retry loop only under an is_recoverable() == false test (R3); no Result-typed local is assigned and never read outside the confirmed sites (R6).")
+         " Added: a rejected starting point leaves the retry loop only under an is_recoverable() == false test (R3); no Result-typed local is assigned and never read outside the confirmed sites (R6)."
+         " Added (round 4): no integer / Duration division with a divisor that can be zero and is not guarded (R9); no write-only error accumulator (R10); both with planted positive controls.")
 EXPLANATION = ("ERR classification of every consumer of a fallible call result in the scope bodies (MIR def-use), with an explicit "
                "table of accepted non-propagating idioms (one reason each); HIR arm analysis of wait_timeout/abort.")
 TRUSTED = ["rustc nightly MIR", "nutsfacts extractor", "rules/err.py classification"]
